@@ -192,6 +192,11 @@ func (r *Run) Violate(key, what, caseSig string, witness any) {
 		if matchKey(f.Key, key) {
 			v.Known = true
 			fmt.Printf("KNOWN-FINDING: property=%s %s — %s\n", r.ID, key, f.What)
+			if d := os.Getenv("VERIF_DUMP_KNOWN"); d != "" {
+				// debugging aid: the witness of a listed finding, outside the verification tree
+				b, _ := json.MarshalIndent(map[string]any{"key": key, "case": caseSig, "witness": witness}, "", " ")
+				os.WriteFile(filepath.Join(d, r.ID+"-known.json"), b, 0o644)
+			}
 			break
 		}
 	}
